@@ -8,8 +8,8 @@
 #include <filesystem>
 using namespace vf;
 
-struct Poly { std::vector<double> pos; std::vector<std::vector<unsigned>> faces; std::string name; bool triangulated; };
-static std::vector<Poly> g_polys;
+struct Poly { std::vector<double> pos; std::vector<std::vector<unsigned>> faces; std::string name; bool triangulated; bool valid = true; /* false: not a closed 2-manifold (open, pinched): only 'nothing invalid is handed over' is judged */ };
+static std::vector<Poly> g_polys; static size_t g_first_invalid = 0;
 static Poly from_mesh(const sc::Mesh& m, const std::string& name) { Poly p; p.pos = m.pos; for (size_t f = 0; f < m.nf(); f++) p.faces.push_back({m.tri[3*f], m.tri[3*f+1], m.tri[3*f+2]}); p.name = name; p.triangulated = true; return p; }
 static Poly moved(Poly p, double s, double tx, double ty, double tz, const std::string& suffix) { for (size_t i = 0; i < p.pos.size(); i += 3) { p.pos[i] = p.pos[i] * s + tx; p.pos[i+1] = p.pos[i+1] * s + ty; p.pos[i+2] = p.pos[i+2] * s + tz; } p.name += suffix; return p; }
 static void setup() { if (!g_polys.empty()) return; using namespace sc;
@@ -21,7 +21,13 @@ static void setup() { if (!g_polys.empty()) return; using namespace sc;
     Poly lp; lp.name = "L_shaped_prism"; lp.triangulated = false; double L[6][2] = {{0, 0}, {2, 0}, {2, 1}, {1, 1}, {1, 2}, {0, 2}}; for (int k = 0; k < 2; k++) for (int i = 0; i < 6; i++) { lp.pos.push_back(L[i][0]); lp.pos.push_back(L[i][1]); lp.pos.push_back(k * 1.0); }
     lp.faces = {{5, 4, 3, 2, 1, 0}, {6, 7, 8, 9, 10, 11}}; for (unsigned i = 0; i < 6; i++) lp.faces.push_back({i, (i + 1) % 6, 6 + (i + 1) % 6, 6 + i});
     g_polys = {cq, cqm, ct, ctm, from_mesh(tetrahedron(), "tetrahedron"), from_mesh(octahedron(), "octahedron"), pp, from_mesh(icosphere(2), "icosphere162"), from_mesh(scaled(icosphere(2), 2, 1, 0.5), "ellipsoid_2_1_0.5"), lp};
-    size_t n = g_polys.size(); for (size_t i = 0; i < n; i++) if (i == 0 || i == 2 || i == 6 || i == 7 || i == 9) g_polys.push_back(moved(g_polys[i], 2.5, 1024, -1024, 512, "_x2.5_at_(1024,-1024,512)"));
+    // inputs that are NOT closed 2-manifolds: whatever the initialiser does with them, it must not hand an open or non-manifold cell to the solver
+    { Poly open = ct; open.name = "cube_11_of_12_triangles(open)"; open.faces.pop_back(); open.valid = false;
+      Mesh os = subdivide_sphere(subdivide_sphere(octahedron(), ""), ""); unsigned north = 0, south = 0; for (size_t i = 0; i < os.nv(); i++) { if (os.pos[3*i+2] > os.pos[3*north+2]) north = (unsigned)i; if (os.pos[3*i+2] < os.pos[3*south+2]) south = (unsigned)i; }
+      Poly pin = from_mesh(os, "sphere_with_both_poles_merged_into_one_node(pinched)"); for (auto& f : pin.faces) for (unsigned& id : f) if (id == south) id = north; pin.valid = false;
+      Poly inw = ct; inw.name = "cube_12_triangles_all_wound_inward"; for (auto& f : inw.faces) std::swap(f[1], f[2]);   // legal: 'in any winding'
+      g_polys.push_back(inw); g_first_invalid = g_polys.size(); g_polys.push_back(open); g_polys.push_back(pin); }
+    size_t n = g_first_invalid - 1; for (size_t i = 0; i < n; i++) if (i == 0 || i == 2 || i == 6 || i == 7 || i == 9) g_polys.push_back(moved(g_polys[i], 2.5, 1024, -1024, 512, "_x2.5_at_(1024,-1024,512)"));
 }
 static double poly_size(const Poly& p) { double lo[3] = {1e300, 1e300, 1e300}, hi[3] = {-1e300, -1e300, -1e300}; for (size_t i = 0; i < p.pos.size(); i += 3) for (int k = 0; k < 3; k++) { lo[k] = std::min(lo[k], p.pos[i+k]); hi[k] = std::max(hi[k], p.pos[i+k]); } return std::max({hi[0] - lo[0], hi[1] - lo[1], hi[2] - lo[2]}); }
 // fan triangulation about the face centre (what the code's own coarse step does) for the reference surface
@@ -54,6 +60,7 @@ static std::string run_case(const Case& cs, const std::string& dir) {
     catch (std::exception& e) { return std::string("rejected:") + typeid(e).name() + ":" + e.what(); }
     if (lst.size() != 1 || !lst[0]) return "initializer-returned-wrong-number-of-cells";
     cell& c = *lst[0]; std::string e = sc::oracle_mesh(c); if (!e.empty()) return "initializer-handed-over-a-cell-with-" + e;
+    if (!p.valid) { c.clear_data(); return "ok:0:0"; }   // a valid cell built from an invalid description (e.g. the reconstruction closed the hole): nothing more is demanded
     std::vector<std::array<vec3, 3>> tris; double star_vol, box[6]; reference_surface(p, tris, star_vol, box); const double Vin = exact_volume(p, star_vol);
     sc::Geom g = sc::geom_of(c); const double relv = std::fabs((double)g.vol - Vin) / Vin;
     double maxd = 0; for (const node& n : c.node_lst_) if (n.is_used_) { long double best = 1e300; for (auto& t : tris) best = std::min(best, sc::dist2_point_triangle(n.pos_, t[0], t[1], t[2])); maxd = std::max(maxd, (double)sqrtl(best)); }
@@ -76,6 +83,7 @@ static void explore(Result& R) {
     const bool th = R.args.thorough(); setup(); const int K = th ? 12 : 2; long cases = 0, ok = 0, rej = 0, unit = 0, npts = 0, poisson_nonempty = 0; double worst_v = 0, worst_d = 0;
     std::string dir = std::string(getenv("VERIF_DIR") ? getenv("VERIF_DIR") : ".") + "/build/run/C13-" + std::to_string(getpid());
     for (int p = 0; p < (int)g_polys.size(); p++) for (int l = 0; l < 3; l++) for (int t = 0; t < 2; t++) for (int k = 0; k < (t ? K : 1); k++) {
+        if (!g_polys[p].valid && l != 1) continue;
         if (!R.args.mine(unit++)) continue; if (R.out_of_time(0.85)) { R.cap("deadline"); goto poisson; }
         Case c{p, l, t, k}; cases++; progress("mode=init\ncase=" + case_text(c) + "\n");
         ForkOut fo = run_forked([&](char* buf, size_t cap) { std::string r = run_case(c, dir); snprintf(buf, cap, "%s", r.c_str()); }, 300);
@@ -86,12 +94,12 @@ static void explore(Result& R) {
             if (v > 1.0) err = "enclosed-volume-not-within-resolution-tolerance: relative error / (l_max/size) = " + jnum(v); }
         else if (r.rfind("rejected:", 0) == 0) { rej++; R.tables["rejections"][r.substr(9, 70)]++;
             if (r.rfind("rejected:intialization_exception", 0) != 0) { /* another std::exception: allowed by the statement ("or another std::exception")? the statement says initialisation exception */ R.tables["rejections_by_other_exception_types"][r.substr(9, 60)]++; }
-            if (!t && g_polys[p].triangulated) err = "already-triangulated-closed-input-rejected-with-triangulation-disabled: " + r; }
+            if (!t && g_polys[p].triangulated && g_polys[p].valid) err = "already-triangulated-closed-input-rejected-with-triangulation-disabled: " + r; }
         else err = r;
         if (!err.empty()) R.violation(clause_of(err) + "|" + (t ? "triangulation" : "no_triangulation"), case_json(c) + ": " + err, "mode=init\ncase=" + case_text(c) + "\n");
         if (cases % 12 == 1) R.sample(case_json(c), 8); }
 poisson:
-    for (int p = 0; p < (int)g_polys.size(); p++) for (int l = 0; l < 2; l++) for (int k = 0; k < (th ? 6 : 1); k++) { if (!R.args.mine(unit++)) continue; if (R.out_of_time(0.95)) { R.cap("deadline (poisson block)"); break; }
+    for (int p = 0; p < (int)g_polys.size(); p++) for (int l = 0; l < 2; l++) for (int k = 0; k < (th ? 6 : 1); k++) { if (!g_polys[p].valid) continue; if (!R.args.mine(unit++)) continue; if (R.out_of_time(0.95)) { R.cap("deadline (poisson block)"); break; }
         ForkOut fo = run_forked([&](char* buf, size_t cap) { long n = 0; std::string r = run_poisson(p, l, k, &n); snprintf(buf, cap, "%ld|%s", n, r.c_str()); }, 300); cases++;
         std::string err; if (fo.status != 0) err = "sampling-crashes-or-hangs: status " + std::to_string(fo.status); else { npts += atol(fo.data.c_str()); if (atol(fo.data.c_str()) > 1) poisson_nonempty++; std::string r = fo.data.substr(fo.data.find('|') + 1); if (r != "ok" && r != "skip") err = r; }
         if (!err.empty()) R.violation(clause_of(err), g_polys[p].name + ", l_min/size " + jnum(LM[l]) + ", seed " + std::to_string(k) + ": " + err, "mode=poisson\npoly=" + std::to_string(p) + "\nlmin=" + std::to_string(l) + "\nseed=" + std::to_string(k) + "\n"); }
